@@ -28,18 +28,21 @@ fn valid(c: &C) -> bool {
 
 fn exec(t: &[String]) -> Option<String> {
     let c = dec(t)?;
-    let l = c.h.build();
+    let qc: Vec<u64> = c.qs.iter().flat_map(|q| [q.0, q.1]).collect();
+    let l = AnyLapper::build(&c.h, split_flavour(t).1, &qc);
     let mut w = W::new();
     w.n(c.qs.len());
     let mut cursor = 0usize;
+    let put = |w: &mut W, v: Vec<Iv>| { w.n(v.len()); for i in v { w.n(i.start).n(i.stop).n(i.val); } };
     for (s, e) in &c.qs {
-        put_ivs(&mut w, l.seek(*s, *e, &mut cursor));
-        put_ivs(&mut w, l.find(*s, *e));
+        put(&mut w, l.seek(*s, *e, &mut cursor));
+        put(&mut w, l.find(*s, *e));
     }
     Some(w.join())
 }
 
-fn shrink(t: &[String]) -> Vec<Vec<String>> {
+fn shrink(t: &[String]) -> Vec<Vec<String>> { shrink_flavoured(t, shrink0) }
+fn shrink0(t: &[String]) -> Vec<Vec<String>> {
     let Some(c) = dec(t) else { return vec![] };
     let mut out = vec![];
     for qs in shrink_vec(&c.qs) { if !qs.is_empty() { out.push(C { h: c.h.clone(), qs }); } }
@@ -111,6 +114,14 @@ fn gen(rng: &mut Rng, tier: Tier) -> Vec<Case> {
         let qs = asc_queries(rng, &a, k, if top { u64::MAX - 40 } else { base + 20_000 });
         if qs.is_empty() { continue; }
         out.push(Case::new("random", enc(&C { h, qs })));
+    }
+    // coordinate-type flavours: every generated (non-exhaustive) case is, half of the time, run over another instantiation of
+    // `Lapper<I, _>`; for the narrow types a far-away interval is added so that the set spans more than half of the type's range
+    for c in out.iter_mut() {
+        if c.stream == "exhaustive" { continue; }
+        let ty = gen_ltype(rng);
+        if ty == 0 { continue; }
+        if let Some(mut d) = dec(&c.input) { if rng.chance(1, 2) { spread_for_type(rng, &mut d.h, ty, true); } c.input = push_flavour(enc(&d), ty); }
     }
     out
 }
